@@ -245,8 +245,15 @@ func (c *Ctx) Finish() int {
 		ev["assumptions"] = []string{}
 	}
 	b, _ := json.MarshalIndent(ev, "", " ")
-	os.MkdirAll(filepath.Join(c.Root, "evidence"), 0755)
-	if err := os.WriteFile(filepath.Join(c.Root, "evidence", c.Prop+".json"), b, 0644); err != nil {
+	// VERIF_EVIDENCE_DIR: where runs that do not describe /repo itself (a
+	// seeded change or a mutant applied, another repository) put their
+	// evidence, so that evidence/ only ever holds runs on the real tree
+	evdir := filepath.Join(c.Root, "evidence")
+	if d := os.Getenv("VERIF_EVIDENCE_DIR"); d != "" {
+		evdir = d
+	}
+	os.MkdirAll(evdir, 0755)
+	if err := os.WriteFile(filepath.Join(evdir, c.Prop+".json"), b, 0644); err != nil {
 		fmt.Println("ENGINE-ERROR cannot write evidence:", err)
 		return 2
 	}
